@@ -92,4 +92,10 @@ var specs = []spec{
 		Sig:     "(remaining : Int64) : Int64",
 		Methods: map[string]string{"Sub": "remaining"},
 	},
+	{
+		// the guard of GetRangeByHeight that refuses empty and inverted ranges
+		File: "p2p/exchange.go", Func: "GetRangeByHeight", Recv: "Exchange", FirstIf: true, Lean: "rangeDegenerate", Module: "P2P",
+		Sig:     "(from_height to : UInt64) : Bool",
+		Methods: map[string]string{"Height": "from_height"},
+	},
 }
